@@ -456,3 +456,55 @@ def c17(tier, seed):
         out.append({"name": f"C17-{mode}-{k}", "family": mode, "seed": seed * 53 + k, "frag": 1344, "steps": steps, "log_meta": True,
                     "max_steps": 12000000})
     return out
+
+
+# ---------------------------------------------------------------------------------------------
+def c30(tier, seed):
+    """deadline missed counts: write timing patterns relative to the deadline period, 1-2 instances"""
+    rng = random.Random(seed)
+    out = []
+    n = 40 if tier == "quick" else 600
+    for k in range(n):
+        D = rng.choice([100, 300, 1000]) if k % 5 else 20     # 20 ms: shorter than the worker period, always overdue
+        use_listener = k % 2 == 0
+        wstep = {"do": "create_writer", "part": 0, "qos": q(deadline_ms=D)}
+        rstep = {"do": "create_reader", "part": 1, "qos": q(deadline_ms=D)}
+        if use_listener:
+            wstep["listener"] = ["OfferedDeadlineMissed"]
+        rstep["listener"] = ["RequestedDeadlineMissed"]
+        steps = [{"do": "participant"}, {"do": "participant"}, wstep, rstep, {"do": "wait_match", "w": 0, "n": 1}]
+        ninst = rng.choice([1, 2, 2])
+        for j in range(rng.randint(2, 7)):
+            inst = rng.randint(1, ninst)
+            same_time = rng.random() < 0.25 and ninst == 2
+            steps.append({"do": "write", "w": 0, "i": inst, "len": 8})
+            if same_time:
+                steps.append({"do": "write", "w": 0, "i": 3 - inst, "len": 8})
+            gap = int(D * rng.choice([0.3, 0.6, 0.9, 1.5, 2.2, 3.7]))
+            steps.append({"do": "sleep", "ms": gap})
+            if not use_listener and rng.random() < 0.6:
+                steps.append({"do": "sleep", "ms": 60})
+                steps.append({"do": "offered_deadline_status", "w": 0})
+        steps.append({"do": "sleep", "ms": int(D * rng.choice([0.5, 1.2, 2.5])) + 60})
+        if not use_listener:
+            steps.append({"do": "offered_deadline_status", "w": 0})
+        steps.append({"do": "final"})
+        out.append({"name": f"C30-{k}", "family": "timing", "seed": seed * 59 + k, "frag": 1344, "steps": steps})
+    return out
+
+
+def c31(tier, seed):
+    """every timer request of the worker is within [0, 50 ms] whatever is pending: deadlines, lifespans, blocked writes,
+    leases, announcements (the scenarios of C27, C29, C30 and the lease scenarios of C03 with the Sleep events kept)"""
+    out = []
+    for gen, cnt in ((c27, 25), (c29, 25), (c30, 25)):
+        for sc in gen(tier, seed)[: cnt if tier == "quick" else 300]:
+            sc = dict(sc)
+            sc["name"] = "C31-" + sc["name"]
+            out.append(sc)
+    for sc in c03(tier, seed):
+        if sc["family"] == "silence":
+            sc = dict(sc)
+            sc["name"] = "C31-" + sc["name"]
+            out.append(sc)
+    return out
